@@ -29,19 +29,21 @@ pub struct QCfg {
     pub notify_ops: bool,
     /// Drop absolute index values from the key (fixpoint mode; differentially validated).
     pub abstract_idx: bool,
+    /// Arm the store tracer on the descriptor/driver area for the checked step (C02, C07).
+    pub trace: bool,
 }
 
 impl QCfg {
     pub fn label<const N: usize>(&self) -> String {
         format!(
-            "qcore:N={},indirect={},event_idx={},ap={},legacy={},off={},nops={},abs={}",
-            N, self.indirect as u8, self.event_idx as u8, self.ap as u8, self.legacy as u8, self.start_off, self.notify_ops as u8, self.abstract_idx as u8
+            "qcore:N={},indirect={},event_idx={},ap={},legacy={},off={},nops={},abs={},trace={}",
+            N, self.indirect as u8, self.event_idx as u8, self.ap as u8, self.legacy as u8, self.start_off, self.notify_ops as u8, self.abstract_idx as u8, self.trace as u8
         )
     }
     pub fn parse(s: &str) -> Option<(usize, QCfg)> {
         let s = s.strip_prefix("qcore:")?;
         let mut n = 0usize;
-        let mut c = QCfg { indirect: false, event_idx: false, ap: false, legacy: false, start_off: 0, notify_ops: false, abstract_idx: false };
+        let mut c = QCfg { indirect: false, event_idx: false, ap: false, legacy: false, start_off: 0, notify_ops: false, abstract_idx: false, trace: false };
         for kv in s.split(',') {
             let (k, v) = kv.split_once('=')?;
             let v: u64 = v.parse().ok()?;
@@ -54,6 +56,7 @@ impl QCfg {
                 "off" => c.start_off = v as u16,
                 "nops" => c.notify_ops = v != 0,
                 "abs" => c.abstract_idx = v != 0,
+                "trace" => c.trace = v != 0,
                 _ => return None,
             }
         }
@@ -131,6 +134,10 @@ pub struct World<const N: usize> {
     pops: u16,
     notify_setting: u16,
     adds: u32,
+    tracer: Option<Box<crate::tracer::Tracer>>,
+    /// Accesses of the driver to the traced region during the checked call.
+    pub accesses: Vec<crate::tracer::Access>,
+    pub read_faults: usize,
 }
 
 fn pat(seed: u32, i: usize) -> u8 {
@@ -144,6 +151,7 @@ fn viol(prop: &'static str, kind: &str, detail: String) {
 impl<const N: usize> World<N> {
     pub fn new(cfg: QCfg) -> Result<Self, String> {
         hal::reset();
+        hal::with(|h| h.use_tracer_pages = cfg.trace);
         let mut d = VirtioDev::new(DeviceType::Block, 0, 1, N as u32, vec![]);
         d.legacy = cfg.legacy;
         let dev: DevRc = Rc::new(RefCell::new(d));
@@ -162,7 +170,20 @@ impl<const N: usize> World<N> {
             pops: 0,
             notify_setting: 0,
             adds: 0,
+            tracer: None,
+            accesses: vec![],
+            read_faults: 0,
         };
+        if cfg.trace {
+            // Trace the pages holding the descriptor table and the available ring (for the legacy
+            // layout: the pages below the used ring).
+            let (base, alias, pages) = hal::with(|h| {
+                let e = h.dma_containing(a.desc, 16 * N).expect("descriptor area is DMA memory");
+                (e.vaddr, e.dev_vaddr, e.pages)
+            });
+            let len = if cfg.legacy { (a.device - a.desc) as usize } else { pages * 4096 };
+            w.tracer = Some(crate::tracer::Tracer::new(base, len, alias, 16 * N + 6 + 2 * N));
+        }
         if cfg.start_off != 0 {
             w.q.as_mut().unwrap().verif_warp(cfg.start_off);
             w.refq.last_avail = cfg.start_off;
@@ -175,6 +196,119 @@ impl<const N: usize> World<N> {
 
     fn q(&mut self) -> &mut VirtQueue<LabHal, N> {
         self.q.as_mut().unwrap()
+    }
+
+    /// Calls into the driver, with the store tracer armed if this is the checked step.
+    fn traced<R>(&mut self, check: bool, f: impl FnOnce(&mut VirtQueue<LabHal, N>) -> R) -> Result<R, String> {
+        self.accesses.clear();
+        let q = self.q.as_mut().unwrap();
+        if check {
+            if let Some(mut t) = self.tracer.take() {
+                let (r, acc) = t.trace(|| crate::util::catch(|| f(q)));
+                if t.overflow {
+                    viol("C02", "tracer-overflow", "more accesses than the tracer can log".into());
+                }
+                self.tracer = Some(t);
+                self.read_faults = acc.iter().filter(|a| !a.write).count();
+                for a in &acc {
+                    tag(if a.write { "tracer:store-observed" } else { "tracer:load-observed" });
+                }
+                self.accesses = acc;
+                return r;
+            }
+        }
+        crate::util::catch(|| f(q))
+    }
+
+    fn snap_idx(snap: &[u8]) -> u16 {
+        u16::from_le_bytes([snap[16 * N + 2], snap[16 * N + 3]])
+    }
+    fn snap_ring(snap: &[u8], slot: usize) -> u16 {
+        u16::from_le_bytes([snap[16 * N + 4 + 2 * slot], snap[16 * N + 5 + 2 * slot]])
+    }
+
+    /// C02 for a submission: at every instant after a store, everything below the available index
+    /// visible at that instant is complete, and the index is the last location to change.
+    fn check_c02_add(&self, prev_avail: u16, token: u16, chain: Option<&Chain>, succeeded: bool) {
+        if self.tracer.is_none() {
+            return;
+        }
+        let mut published_at: Option<usize> = None;
+        for (i, a) in self.accesses.iter().enumerate() {
+            let idx = Self::snap_idx(&a.snapshot);
+            if idx != prev_avail && idx != prev_avail.wrapping_add(1) {
+                viol("C02", "avail-idx-jump", format!("after store #{} the device could read avail.idx = {} (previous {})", i, idx, prev_avail));
+            }
+            if published_at.is_some() && idx == prev_avail {
+                viol("C02", "avail-idx-backwards", format!("avail.idx moved back to {} at store #{}", idx, i));
+            }
+            if idx == prev_avail.wrapping_add(1) {
+                if published_at.is_none() {
+                    published_at = Some(i);
+                    if !a.write {
+                        viol("C02", "index-changed-without-store", "index changed on a read access".into());
+                    }
+                }
+                // Everything the device could reach through the new entry must be complete now.
+                let slot = prev_avail as usize & (N - 1);
+                let head = Self::snap_ring(&a.snapshot, slot);
+                if head != token {
+                    viol("C02", "ring-slot-after-index", format!("at store #{} avail.idx already covers slot {} but the slot holds {} (the submission's head is {})", i, slot, head, token));
+                }
+                match (self.refq.walk_snapshot(&a.snapshot[..16 * N], token), chain) {
+                    (Ok(c), Some(fc)) => {
+                        if c != *fc {
+                            viol("C02", "descriptors-after-index", format!("at store #{} avail.idx already covers the new entry but its chain reads {:?}; complete form is {:?}", i, c, fc));
+                        }
+                        if let Some((taddr, _)) = c.indirect {
+                            let shared_seq = hal::with(|h| h.shares.iter().find(|s| s.paddr == taddr).map(|s| s.seq));
+                            match shared_seq {
+                                Some(sq) if sq <= a.hal_seq => {}
+                                other => viol("C02", "indirect-table-after-index", format!("at store #{} the index covers an entry whose indirect table {:#x} was not yet shared with the device ({:?} vs {})", i, taddr, other, a.hal_seq)),
+                            }
+                        }
+                    }
+                    (Err(e), _) => viol("C02", "descriptors-after-index", format!("at store #{} avail.idx already covers the new entry but its chain is not well-formed yet: {}", i, e)),
+                    _ => {}
+                }
+            }
+            self.check_inflight_in_snapshot(&a.snapshot, i, Some(token));
+        }
+        if let Some(p) = published_at {
+            if let Some(later) = self.accesses.iter().enumerate().skip(p + 1).find(|(_, a)| a.write) {
+                viol("C02", "store-after-index", format!("store #{} at offset {:#x} of the queue memory follows the store that published avail.idx (#{}); the index must be the last device-visible location to change", later.0, later.1.off, p));
+            }
+        } else if succeeded {
+            viol("C02", "index-never-published", "the submission succeeded but no store made the new index visible".into());
+        }
+    }
+
+    /// C02 for operations that do not submit: the index never moves and chains that are available
+    /// but not yet completed stay intact at every instant.
+    fn check_c02_other(&self, what: &str) {
+        if self.tracer.is_none() {
+            return;
+        }
+        let want = self.cfg.start_off.wrapping_add(self.adds as u16);
+        for (i, a) in self.accesses.iter().enumerate() {
+            let idx = Self::snap_idx(&a.snapshot);
+            if idx != want {
+                viol("C02", "avail-idx-moved", format!("{}: after store #{} the device could read avail.idx = {} (must stay {})", what, i, idx, want));
+            }
+            self.check_inflight_in_snapshot(&a.snapshot, i, None);
+        }
+    }
+
+    fn check_inflight_in_snapshot(&self, snap: &[u8], i: usize, except: Option<u16>) {
+        for o in &self.outs {
+            if o.completed.is_some() || o.chain.descs.is_empty() || Some(o.token) == except {
+                continue;
+            }
+            match self.refq.walk_snapshot(&snap[..16 * N], o.token) {
+                Ok(c) if c == o.chain => {}
+                other => viol("C02", "available-chain-disturbed", format!("at store #{} the available, not yet completed chain {} reads {:?}; it was published as {:?}", i, o.token, other, o.chain)),
+            }
+        }
     }
 
     fn held(&self) -> usize {
@@ -293,7 +427,10 @@ impl<const N: usize> World<N> {
             }
             A_NOTIFY_OFF | A_NOTIFY_ON => {
                 let en = a == A_NOTIFY_ON;
-                self.q().set_dev_notify(en);
+                let _ = self.traced(check, |q| q.set_dev_notify(en));
+                if check {
+                    self.check_c02_other("set_dev_notify");
+                }
                 if !self.cfg.event_idx {
                     self.notify_setting = if en { 0 } else { 1 };
                 }
@@ -335,8 +472,7 @@ impl<const N: usize> World<N> {
         let res = {
             let in_refs: Vec<&[u8]> = ins.iter().map(|b| unsafe { std::slice::from_raw_parts(b.as_ptr(), b.len()) }).collect();
             let mut out_refs: Vec<&mut [u8]> = outs.iter_mut().map(|b| unsafe { std::slice::from_raw_parts_mut(b.as_mut_ptr(), b.len()) }).collect();
-            let q = self.q.as_mut().unwrap();
-            crate::util::catch(|| unsafe { q.add(&in_refs, &mut out_refs) })
+            self.traced(check, |q| unsafe { q.add(&in_refs, &mut out_refs) })
         };
         let res = match res {
             Ok(r) => r,
@@ -348,6 +484,9 @@ impl<const N: usize> World<N> {
         match (expect, res) {
             (Err(e), Err(got)) => {
                 tag(if e == Error::QueueFull { "add:QueueFull" } else { "add:InvalidParam" });
+                if check {
+                    self.check_c02_other("refused add");
+                }
                 tlog!("  refused with {:?}", got);
                 if check {
                     if got != e {
@@ -375,6 +514,9 @@ impl<const N: usize> World<N> {
                 self.adds += 1;
                 // The device now looks at the ring (always; the state must be tracked).
                 let chain = self.oracle_add(token, prev_avail, &ins, &outs, log_before, check);
+                if check {
+                    self.check_c02_add(prev_avail, token, chain.as_ref(), true);
+                }
                 let heldn = match &chain {
                     Some(c) => c.descs.len(),
                     None => if self.cfg.indirect { 1 } else { n },
@@ -544,8 +686,7 @@ impl<const N: usize> World<N> {
             let o = &mut self.outs[oi];
             let in_refs: Vec<&[u8]> = o.ins.iter().map(|b| unsafe { std::slice::from_raw_parts(b.as_ptr(), b.len()) }).collect();
             let mut out_refs: Vec<&mut [u8]> = o.outs.iter_mut().map(|b| unsafe { std::slice::from_raw_parts_mut(b.as_mut_ptr(), b.len()) }).collect();
-            let q = self.q.as_mut().unwrap();
-            crate::util::catch(|| unsafe { q.pop_used(token, &in_refs, &mut out_refs) })
+            self.traced(check, |q| unsafe { q.pop_used(token, &in_refs, &mut out_refs) })
         };
         match res {
             Err(p) => {
@@ -557,6 +698,9 @@ impl<const N: usize> World<N> {
             Ok(Ok(got)) => {
                 tag("pop:ok");
                 tlog!("  -> Ok({})", got);
+                if check {
+                    self.check_c02_other("pop_used");
+                }
                 self.fifo.pop_front();
                 self.pops = self.pops.wrapping_add(1);
                 let o = self.outs.remove(oi);
@@ -636,8 +780,7 @@ impl<const N: usize> World<N> {
                 }
                 None => (vec![], vec![]),
             };
-            let q = self.q.as_mut().unwrap();
-            crate::util::catch(|| unsafe { q.pop_used(token, &in_refs, &mut out_refs) })
+            self.traced(check, |q| unsafe { q.pop_used(token, &in_refs, &mut out_refs) })
         };
         tag(if want == Error::WrongToken { "pop:WrongToken" } else { "pop:NotReady" });
         if !check {
